@@ -65,7 +65,7 @@ theorem advance_spec : ∀ (s : List Ev) (cb cf : Nat) (s' : List Ev), advance s
 theorem RecvObs.state_spec (o : RecvObs) (st st' : St) (h : o.state st = some st') :
     st'.rbuf = o.rbuf ∧ nTO st'.script = o.faults ∧ (pending st'.script).length = o.und ∧
     nTO st'.script ≤ nTO st.script ∧ ∃ c, c ++ pending st'.script = pending st.script := by
-  unfold RecvObs.state at h
+  unfold RecvObs.state RecvObs.seat at h
   split at h
   · rename_i hc
     split at h
@@ -121,8 +121,23 @@ theorem acceptRecv_conserves (size : Nat) (o : RecvObs) (st st' : St) (h : accep
 /-- THE theorem of this round: in a run whose recv steps were merely accepted (any prefix, any split, any
     number of socket reads), every framing call still returns the whole-stream answer on what is still owed,
     and the bytes still owed at the end are the whole-stream rest -/
-theorem runMixed_ok (cfg : Cfg) (hrs : 0 < cfg.recvsize) : ∀ (steps : List MStep) (st : St) (rs : List Res)
-    (st' : St), (∀ s ∈ steps, s.det = true) → runMixed cfg steps st = some (rs, st') →
+theorem reseat_ok (s0 : List Ev) (o : RecvObs) (st : St) :
+    (reseat s0 o st).view = st.view ∧ nTO (reseat s0 o st).script = nTO st.script := by
+  unfold reseat
+  split
+  · split
+    · rename_i hc; exact hc
+    · exact ⟨rfl, rfl⟩
+  · exact ⟨rfl, rfl⟩
+
+theorem reseatOpt_ok (s0 : List Ev) (o : Option RecvObs) (st : St) :
+    (reseatOpt s0 o st).view = st.view ∧ nTO (reseatOpt s0 o st).script = nTO st.script := by
+  cases o with
+  | none => exact ⟨rfl, rfl⟩
+  | some o => exact reseat_ok s0 o st
+
+theorem runMixed_ok (cfg : Cfg) (hrs : 0 < cfg.recvsize) (s0 : List Ev) : ∀ (steps : List MStep) (st : St)
+    (rs : List Res) (st' : St), (∀ s ∈ steps, s.det = true) → runMixed cfg s0 steps st = some (rs, st') →
     (rs, st'.view) = specMixed steps st.view := by
   intro steps
   induction steps with
@@ -136,8 +151,8 @@ theorem runMixed_ok (cfg : Cfg) (hrs : 0 < cfg.recvsize) : ∀ (steps : List MSt
     intro st rs st' hdet h
     have hdet' : ∀ s ∈ steps, s.det = true := fun x hx => hdet x (List.mem_cons_of_mem _ hx)
     cases s with
-    | call op =>
-      have hop : op.deterministic = true := hdet (.call op) (List.mem_cons_self ..)
+    | call op seat =>
+      have hop : op.deterministic = true := hdet (.call op seat) (List.mem_cons_self ..)
       simp only [runMixed] at h
       split at h
       · rename_i rs' s' hrun
@@ -149,7 +164,7 @@ theorem runMixed_ok (cfg : Cfg) (hrs : 0 < cfg.recvsize) : ∀ (steps : List MSt
         simp only [specMixed]
         have e1 : (callRetry cfg op st).1 = (spec op st.view).1 := congrArg Prod.fst hc
         have e2 : (callRetry cfg op st).2.view = (spec op st.view).2 := congrArg Prod.snd hc
-        rw [e2] at hi
+        rw [(reseatOpt_ok s0 seat _).1, e2] at hi
         rw [e1, ← hi]
       · simp at h
     | recvObs size o =>
@@ -172,8 +187,8 @@ theorem runMixed_ok (cfg : Cfg) (hrs : 0 < cfg.recvsize) : ∀ (steps : List MSt
 
 /-- conservation along such a run: handed over by the accepted recv steps ++ consumed by the framing calls
     ++ still owed = what was owed at the start -/
-theorem runMixed_conserves (cfg : Cfg) (hrs : 0 < cfg.recvsize) : ∀ (steps : List MStep) (st : St)
-    (rs : List Res) (st' : St), runMixed cfg steps st = some (rs, st') →
+theorem runMixed_conserves (cfg : Cfg) (hrs : 0 < cfg.recvsize) (s0 : List Ev) : ∀ (steps : List MStep)
+    (st : St) (rs : List Res) (st' : St), runMixed cfg s0 steps st = some (rs, st') →
     handedMixed steps rs ++ st'.view = st.view := by
   intro steps
   induction steps with
@@ -186,7 +201,7 @@ theorem runMixed_conserves (cfg : Cfg) (hrs : 0 < cfg.recvsize) : ∀ (steps : L
   | cons s steps ih =>
     intro st rs st' h
     cases s with
-    | call op =>
+    | call op seat =>
       simp only [runMixed] at h
       split at h
       · rename_i rs' s' hrun
@@ -194,6 +209,7 @@ theorem runMixed_conserves (cfg : Cfg) (hrs : 0 < cfg.recvsize) : ∀ (steps : L
         obtain ⟨a, b⟩ := h
         subst a; subst b
         have hi := ih _ _ _ hrun
+        rw [(reseatOpt_ok s0 seat _).1] at hi
         simp only [handedMixed, List.append_assoc, hi]
         -- one retried call conserves: it is a sequence of attempts
         have : ∀ (fuel : Nat) (s : St), consumed op (retryLoop cfg op fuel s).1 ++ (retryLoop cfg op fuel s).2.view
@@ -246,16 +262,16 @@ theorem specMixed_answer : ∀ (s₁ s₂ : List MStep), s₁.map MStep.answer =
       simp only [List.map_cons, List.cons.injEq] at h
       obtain ⟨hab, ht⟩ := h
       cases a with
-      | call op =>
+      | call op seat =>
         cases b with
-        | call op' =>
-          simp only [MStep.answer, MStep.call.injEq] at hab
+        | call op' seat' =>
+          simp only [MStep.answer, MStep.call.injEq, and_true] at hab
           subst hab
           simp only [specMixed, ih s₂ ht]
         | recvObs n o => simp [MStep.answer] at hab
       | recvObs n o =>
         cases b with
-        | call op' => simp [MStep.answer] at hab
+        | call op' seat' => simp [MStep.answer] at hab
         | recvObs n' o' =>
           simp only [MStep.answer, MStep.recvObs.injEq, RecvObs.mk.injEq, true_and, and_true] at hab
           have e1 : o.toRes = o'.toRes := by simp [RecvObs.toRes, hab]
@@ -263,17 +279,18 @@ theorem specMixed_answer : ∀ (s₁ s₂ : List MStep), s₁.map MStep.answer =
           simp only [specMixed, ih s₂ ht, e1, e2]
 
 theorem resolveMixed_det (large : Nat) : ∀ (calls : List MCall) (selfMax : Nat),
-    (∀ c, MCall.call c ∈ calls → c.deterministic = true) →
+    (∀ c seat, MCall.call c seat ∈ calls → c.deterministic = true) →
     ∀ s ∈ resolveMixed large selfMax calls, s.det = true := by
   intro calls
   induction calls with
   | nil => intro _ _ s h; simp [resolveMixed] at h
   | cons c cs ih =>
     intro selfMax hall s hs
-    have hcs : ∀ c', MCall.call c' ∈ cs → c'.deterministic = true := fun c' h => hall c' (by simp [h])
+    have hcs : ∀ c' seat', MCall.call c' seat' ∈ cs → c'.deterministic = true :=
+      fun c' seat' h => hall c' seat' (by simp [h])
     cases c with
-    | call c =>
-      have hc := hall c (by simp)
+    | call c seat =>
+      have hc := hall c seat (by simp)
       simp only [resolveMixed] at hs
       cases hop : c.op large selfMax with
       | none => rw [hop] at hs; exact ih _ hcs s hs
@@ -378,7 +395,7 @@ theorem obs_state_of_recv (cfg : Cfg) (size : Nat) (st : St) :
         pending st'.script = pending s' ∧ nTO st'.script = nTO s' := by
     intro res rb s' ⟨c, hc, k, hk, r', hr, hp, hn⟩
     refine ⟨⟨rb, r'⟩, ?_, rfl, hp, hn⟩
-    unfold RecvObs.state obsOfRecv
+    unfold RecvObs.state RecvObs.seat obsOfRecv
     have hl := congrArg List.length hc
     simp only [List.length_append] at hl
     have c1 : (pending s').length ≤ (pending st.script).length ∧ nTO s' ≤ nTO st.script := ⟨by omega, by omega⟩
@@ -471,16 +488,15 @@ theorem daccRecv_ok (size : Nat) (o : RecvObs) (cls : Fault) (b b' : BSock) (out
         · omega
       · simp at h
 
-/-! ### read_ns: re-seating on the observed split -/
+/-! ### re-seating on the one object -/
 
-theorem reseat_ok (o : RecvObs) (st : St) :
-    (reseat o st).view = st.view ∧ nTO (reseat o st).script = nTO st.script := by
-  unfold reseat
-  split
-  · split
-    · rename_i hc; exact hc
-    · exact ⟨rfl, rfl⟩
-  · exact ⟨rfl, rfl⟩
+theorem dseat_ok (s0 : List Ev) (o : Option RecvObs) (b : BSock) :
+    (dseat s0 o b).txPart = b.txPart ∧ (dseat s0 o b).cfg = b.cfg ∧ (dseat s0 o b).rtags = b.rtags ∧
+    (dseat s0 o b).rx.view = b.rx.view ∧ (b.Aligned → (dseat s0 o b).Aligned) := by
+  obtain ⟨h1, h2⟩ := reseatOpt_ok s0 o b.rx
+  refine ⟨rfl, rfl, rfl, h1, ?_⟩
+  intro ⟨hr, hs⟩
+  exact ⟨by simp only [dseat]; omega, hs⟩
 
 /-! ### the send loop with free offers -/
 
